@@ -36,22 +36,23 @@ def expected_results(pred, ref, cfg, metrics=METRICS, assd_exact_ok=True):
         assign = frozenset((l, l) for l in pin if l in rin)
         info["cands"] = [(None, l, l) for l in pin if l in rin]
         info["ties"] = False
-        return [M.evaluate_assignment(assign, pin, rin, shape, metrics, decision)], True, info
-    mc = cfg["matcher"]
-    if not pin or not rin:
+        outs, complete = {assign}, True
+    elif not pin or not rin:
         info["cands"] = []
         info["ties"] = False
         return [M.evaluate_assignment(frozenset(), pin, rin, shape, metrics, decision)], True, info
-    cands = M.candidates(pin, rin, mc["metric"], shape)
-    info["cands"] = cands
-    info["ties"] = M.competing_ties(cands, mc["metric"])
-    if mc["kind"] == "naive":
-        outs, complete = M.naive_outcomes(cands, mc["metric"], mc["thr"], mc.get("m2o", False))
     else:
-        outs, complete = M.merge_outcomes(cands, mc["metric"], mc["thr"], pin, rin, shape)
-    eps = M.tie_eps(mc["metric"])
-    if eps and any(abs(s - mc["thr"]) <= eps and (s != mc["thr"] or not assd_exact_ok) for s, _, _ in cands):
-        complete = False
+        mc = cfg["matcher"]
+        cands = M.candidates(pin, rin, mc["metric"], shape)
+        info["cands"] = cands
+        info["ties"] = M.competing_ties(cands, mc["metric"])
+        if mc["kind"] == "naive":
+            outs, complete = M.naive_outcomes(cands, mc["metric"], mc["thr"], mc.get("m2o", False))
+        else:
+            outs, complete = M.merge_outcomes(cands, mc["metric"], mc["thr"], pin, rin, shape)
+        eps = M.tie_eps(mc["metric"])
+        if eps and any(abs(s - mc["thr"]) <= eps and (s != mc["thr"] or not assd_exact_ok) for s, _, _ in cands):
+            complete = False
     info["assignments"] = outs
     res = [M.evaluate_assignment(a, pin, rin, shape, metrics, decision) for a in sorted(outs, key=sorted)]
     if decision is not None and M.tie_eps(decision[0]):
